@@ -61,6 +61,45 @@ Proof.
   - vm_compute. repeat split; reflexivity.
 Qed.
 
+(** START TIMES.  Whatever the import time [t] is — before, at or after an epoch's scheduled start — and whether or not the
+    epoch has begun counting, export ∘ init keeps the start_time (and every other field but the start height) of every
+    stored definition: only a ZERO start_time would be filled in, and a stored epoch never has one. *)
+Lemma epochs_init_keeps_start_time : forall empty h t s, wf_epochs empty s ->
+  exists s', init_epochs EpValNonneg empty h t (export_epochs s) = Some s' /\
+    forall k e, In (k, e) s ->
+      exists e', In (k, e') s' /\ ep_start e' = ep_start e /\ ep_started e' = ep_started e /\ ep_cur e' = ep_cur e /\
+                 ep_cstart e' = ep_cstart e /\ ep_dur e' = ep_dur e.
+Proof.
+  intros empty h t s W. exists (map (rb h) s). split; [exact (epochs_init_export empty h t s W)|].
+  intros k e Hin. exists (rebase_epoch h e). split; [|cbn; auto].
+  apply in_map_iff. exists (k, e). split; [reflexivity | exact Hin].
+Qed.
+
+(** the widened rule "… or not yet counting and scheduled before the import block time": a future-dated definition
+    (start 5000, not started) exported before its date comes back unchanged when the import time is before (1000) or at
+    (5000) its start, but with start_time := import time when the import happens after it (9000) *)
+Definition ep_sched_witness : epochs_st :=
+  [(1, {| ep_id := 1; ep_start := 5000%Z; ep_dur := 60%Z; ep_cur := 0%Z; ep_cstart := zero_time; ep_started := false; ep_height := 0%Z |})].
+
+Lemma epochs_start_time_rewrite_refuted :
+  let sr := EpStZeroOrPastUnstarted in
+  wf_epochs 0 ep_sched_witness /\
+  init_epochs_r sr EpValNonneg 0 7%Z 1000%Z (export_epochs ep_sched_witness) = Some (map (rb 7%Z) ep_sched_witness) /\
+  init_epochs_r sr EpValNonneg 0 7%Z 5000%Z (export_epochs ep_sched_witness) = Some (map (rb 7%Z) ep_sched_witness) /\
+  (exists s', init_epochs_r sr EpValNonneg 0 7%Z 9000%Z (export_epochs ep_sched_witness) = Some s' /\
+              map (fun kv => ep_start (snd kv)) s' = [9000%Z] /\
+              export_epochs s' <> map (rebase_epoch 7%Z) (export_epochs ep_sched_witness)) /\
+  init_epochs EpValNonneg 0 7%Z 9000%Z (export_epochs ep_sched_witness) = Some (map (rb 7%Z) ep_sched_witness).
+Proof.
+  cbn zeta. split.
+  - constructor; try reflexivity.
+    + intros k e [E | []]. inversion E. reflexivity.
+    + intros k e [E | []]. inversion E; subst. cbn. discriminate.
+    + intros k e [E | []]. inversion E; subst. reflexivity.
+  - split; [vm_compute; reflexivity|]. split; [vm_compute; reflexivity|]. split; [|vm_compute; reflexivity].
+    eexists. split; [vm_compute; reflexivity|]. split; [reflexivity|]. vm_compute. discriminate.
+Qed.
+
 (* ---- the application, any number of generations *)
 Lemma regen_roundtrip : forall c F env gens s, cfg_ok c = true -> wf_app F env s ->
   Forall (fun ht => (0 <= fst ht)%Z) gens ->
@@ -72,7 +111,7 @@ Proof.
     exists g, s. cbn. split; [exact Hg|]. split; [reflexivity|]. split; [exact W | exact Hg].
   - inversion Hall as [|x l Hh Hrest]; subst. cbn [fst] in Hh.
     pose proof (proj2 (proj2 (cfg_ok_parts c Hc))) as Hep.
-    destruct (app_roundtrip c F env h t s Hep W) as (g & s1 & H1 & H2 & H3 & _).
+    destruct (app_roundtrip c F env h t s Hep (cfg_ok_start c Hc) W) as (g & s1 & H1 & H2 & H3 & _).
     destruct (state_equiv_strict c F env h t s Hc W) as (g' & s1' & H1' & H2' & H4).
     rewrite H1 in H1'. inversion H1'; subst g'. rewrite H2 in H2'. inversion H2'; subst s1'.
     pose proof (wf_after_import F env h t s s1 Hh W H4) as W1.
